@@ -49,6 +49,8 @@ def gen(ctx):
         streams.append(good[:i])
         streams.append(good[:i] + good[i + 1:])
     streams += [b"ok mpd 0.23.5\n", b"OK\n", b"ACK [5@0] {} x\n", b"OK MPD\n", b"\n", b"OK  MPD 1\n", b"OKMPD 1\n", b" OK MPD 1\n"]
+    # first lines that begin right and turn wrong, with and without their line feed (wrong is wrong as soon as it can be seen)
+    streams += [b"OK MPX 0.23.5", b"OK MPX 0.23.5\n", b"OK MPD0.23.5", b"OK MP", b"OK MQ", b"OL", b"OK MPDx1\n", b"OK MPd 1", b"Ok MPD 1\n", b"OK\tMPD 1\n"]
     n = 50 if ctx.tier == "quick" else 1000
     for _ in range(n):
         s = good
